@@ -17,6 +17,7 @@ pub mod c16;
 pub mod c17;
 pub mod c18;
 pub mod c19;
+pub mod c20;
 
 use crate::run::RunCtx;
 
@@ -41,6 +42,7 @@ pub fn dispatch(prop: &str, rc: &mut RunCtx) -> bool {
         "C17" => c17::run(rc),
         "C18" => c18::run(rc),
         "C19" => c19::run(rc),
+        "C20" => c20::run(rc),
         _ => return false,
     }
     true
